@@ -3,7 +3,10 @@ import common
 from common import Case
 
 TITLE = 'Protocol messages mean the same to both ends and framing always terminates'
-REQUIRED = ['hand_msg_round_trip', 'bid_msg_round_trip', 'card_msg_round_trip', 'board_header_round_trip',
+LEAN_TARGETS = ['BridgeVerif.Props.C19', 'BridgeVerif.Translated.NetHelpers']
+AUDIT_PROPS = ['C19', 'Translated.NetHelpers']
+REQUIRED = ['Translated.NetHelpers.nh_hand_to_str_translated',
+            'hand_msg_round_trip', 'bid_msg_round_trip', 'card_msg_round_trip', 'board_header_round_trip',
             'team_names_round_trip', 'connect_round_trip', 'framing_round_trip', 'chunking_irrelevant',
             'reader_stops_at_eof', 'reader_spins_at_eof_old']
 KEEP_FIRST = 0
